@@ -24,7 +24,8 @@ Fixpoint flatb (s : stmt) : bool :=
   match s with
   | SInclude _ => true
   | SQubitDecl _ (Some (ELit (VInt _))) => true
-  | SClassicalDecl (TBit (Some (ELit (VInt _)))) _ _ => true
+  | SClassicalDecl (TBit (Some (ELit (VInt _)))) _ None => true
+  | SClassicalDecl (TBit (Some (ELit (VInt _)))) _ (Some (ELit _)) => true   (* an initial value, never an expression *)
   | SGate [] _ args qs | SGate [MInv] _ args qs => forallb is_lit args && forallb lit_qarg qs
   | SPhase [] (ELit _) _ => true        (* operands of gphase are not constrained here: see gphase_operands_literal *)
   | SMeasure q (Some t) => lit_qarg q && lit_qarg t
@@ -145,6 +146,7 @@ Ltac mdec H :=
 Ltac mdec_for l :=
   match goal with
   | H : _ = Ok ((_, l), _) |- _ => mdec H
+  | H : _ = Ok ((_, l, _), _) |- _ => mdec H
   | H : _ = Ok (l, _) |- _ => mdec H
   end.
 
@@ -218,7 +220,19 @@ Proof. unfold visit_array_decl; cbv zeta. repeat fm_step; fl_solve. Qed.
 Lemma FM_classical_decl t name init : FM (visit_classical_decl check_only call_rec t name init).
 Proof.
   unfold visit_classical_decl. repeat fm_step; fl_solve; try apply FM_array_decl.
-  all: match goal with |- FL ?l => mdec_for l end; fl_solve.
+  all: try (match goal with |- FL ?l => mdec_for l end; fl_solve).
+  (* the emitted bit declaration: its initialiser is absent or a literal (the folded value), never an expression *)
+  match goal with
+  | H : match init with _ => _ end _ = Ok (_, _, ?o, _) |- flatb (SClassicalDecl _ _ ?o) = true =>
+      assert (Ho : o = None \/ exists v0, o = Some (ELit v0));
+      [ destruct init as [e|]; [|unfold ret in H; inversion H; auto];
+        destruct e; try discriminate H;
+        apply bind_ok in H as ([iv st0] & sa & _ & H); apply bind_ok in H as (cv & sb & _ & H);
+        unfold ret in H; inversion H; subst;
+        first [ right; eexists; reflexivity
+              | match goal with |- context [match ?v with VInt _ => _ | _ => _ end] => destruct v end; right; eexists; reflexivity ]
+      | destruct Ho as [->|[v0 ->]]; reflexivity ]
+  end.
 Qed.
 
 Ltac fm_leftover := try (match goal with |- FL ?l => mdec_for l end; fl_solve).
